@@ -315,15 +315,32 @@ def run_scenario(case: dict[str, Any], ctx: Ctx) -> None:
         return
     n = one({})
     limit = 60 if ctx.tier == "quick" else 100000
-    for p in conc.switch_points(n, len(case["workers"]), limit, case["salt"]):
-        one(p)
+    pts = conc.switch_points(n, len(case["workers"]), limit, case["salt"])
+    if ctx.tier == "quick":
+        # every preemption next to an SQL statement / commit, then the thinner stride over all lines
+        sqlp = conc.sql_switch_points(n, len(case["workers"]), 40, case["salt"])
+        pts = sqlp + [p for p in pts if p not in sqlp][:15]
+        ctx.event("sql_boundary_preemptions", len(sqlp))
+    import time as _time
+
+    t_end = _time.monotonic() + (50.0 if ctx.tier == "quick" else 1e9)
+    done = 0
     for sched_ in case["multi"]:
         one({min(int(f * n), n - 1): c for f, c in sched_})
+    for p in pts:
+        if _time.monotonic() > t_end:
+            ctx.event("schedules_not_run_time_cap", len(pts) - done)
+            break
+        one(p)
+        done += 1
     if case["death"] is not None:
         # death points of the victim: all of its yield points (quick: a stride)
         per = max(1, n // len(case["workers"]))
         pts = range(0, per, max(1, per // (20 if ctx.tier == "quick" else 100000) or 1))
         for k in pts:
+            if _time.monotonic() > t_end + 25.0:
+                ctx.event("death_points_not_run_time_cap")
+                break
             one({}, death_at=k)
             one({k: 0}, death_at=k + 3)
     ctx.event("scenarios")
